@@ -239,7 +239,8 @@ def run(chk, replay=None):
                     continue
                 records.append(rec)
                 chk.nontrivial(("topology", tuple(map(tuple, rec["tree"])), tuple(sorted(t.intermediate_edge_ids)), tuple((k, v.originating_node_id, v.ending_node_id) for k, v in sorted(t.edges.items()))))
-                if len(numeric_jobs) < (40 if tier == "thorough" else 10) and rng.random() < (0.5 if n < 5 else 0.05):
+                n5 = sum(1 for j in numeric_jobs if j[2].startswith("n=5"))
+                if len(numeric_jobs) < (24 if tier == "thorough" else 10) and rng.random() < (0.5 if n < 5 else 0.05) and (n < 5 or n5 < (3 if tier == "thorough" else 1)):
                     numeric_jobs.append((t, exprs, f"n={n} canonical#{ci}"))
                 rid += 1
     n_top = len(records)
